@@ -410,7 +410,9 @@ var gRules = []gSrc{
 // Lexical structure page: literal spellings and identifiers, each with the token value the generator expects.
 var gLexRules = []gLexSrc{
 	{name: "int_lit", cycle: 4, alts: []gLexAlt{{"1", "num:1"}, {"2", "num:2"}, {"3", "num:3"}, {"4", "num:4"}, {"0", "num:0"}, {"123", "num:123"},
-		{"0x1F", "num:0X1F"}, {"0Xabc", "num:0XABC"}, {"9223372036854775807", "num:9223372036854775807"}}},
+		{"0x1F", "num:0X1F"}, {"0Xabc", "num:0XABC"}, {"9223372036854775807", "num:9223372036854775807"},
+		// a decimal integer literal is a sequence of decimal digits: leading zeros do not make it octal
+		{"08", "num:08"}, {"0190", "num:0190"}, {"007", "num:007"}}},
 	{name: "float_lit", cycle: 1, alts: []gLexAlt{{"1.5", "num:1.5"}, {".5", "num:.5"}, {"1.", "num:1."}, {"1e10", "num:1E10"}, {"1E-3", "num:1E-3"}, {"1.5e+3", "num:1.5E+3"}, {".5E2", "num:.5E2"}}},
 	{name: "string_lit", cycle: 2, alts: []gLexAlt{{"'abc'", "str:abc"}, {"'xyz'", "str:xyz"}, {`"abc"`, "str:abc"}, {"'''abc'''", "str:abc"}, {`"""a"b"""`, `str:a"b`},
 		{`r'a\b'`, `str:a\b`}, {`R"a\n"`, `str:a\n`}, {`'a\nb'`, "str:a\nb"}, {`'\x41\101'`, "str:AA"}, {`'é'`, "str:é"}, {"'éあ'", "str:éあ"}, {"''", "str:"},
